@@ -40,7 +40,25 @@ pub fn build_input(case: &GCase, bnf: &Bnf, earley: &Earley, ii: usize) -> Inp {
     };
     let run = earley.run(&toks);
     // every 4th input gets a foreign character spliced in at a token boundary
-    let foreign = if ii % 4 == 3 { Some((c.pick(toks.len() + 1), FOREIGN[c.pick(FOREIGN.len())])) } else { None };
+    let foreign = if ii % 4 == 3 {
+        let at = c.pick(toks.len() + 1);
+        let ch = FOREIGN[c.pick(FOREIGN.len())];
+        // with the two-token layout item the foreign text is half an item (`~` without `^`): the
+        // layout parser shifts it and then fails; the error still belongs at its start
+        if case.layout_mode >= 5 {
+            // only where no layout precedes: an LR layout parser cannot fall back to the valid
+            // layout prefix in front of a broken item, so the expected offset is defined there only
+            if r.layouts.get(at).map(|l| l.is_empty()).unwrap_or(false) {
+                Some((at, "~"))
+            } else {
+                None
+            }
+        } else {
+            Some((at, ch))
+        }
+    } else {
+        None
+    };
     match foreign {
         None => {
             let expect_err = if run.accepted {
@@ -170,7 +188,10 @@ impl Prop for C12 {
             Tier::Quick => (5, 16..26),
             Tier::Thorough => (7, 28..40),
         };
-        let a = gcase(gen::BnfParams { max_nts: nts, ..gen::BnfParams::lr_small() }, inputs.clone(), 24);
+        let a = prop_oneof![
+            2 => gcase(gen::BnfParams { max_nts: nts, ..gen::BnfParams::lr_small() }, inputs.clone(), 24),
+            1 => gcase(gen::BnfParams { max_nts: nts, pool: gen::Pool::Unicode(false), ..gen::BnfParams::lr_small() }, inputs.clone(), 24),
+        ];
         let b = gcase(gen::BnfParams { max_nts: nts.min(5), ..gen::BnfParams::glr_small() }, inputs, 24);
         prop_oneof![a, b].boxed()
     }
